@@ -5,6 +5,9 @@ import RsslVerif.Lemmas.Dec2Bin
 import RsslVerif.Lemmas.Dec2BinNearest
 import RsslVerif.Lemmas.Dec2BinCutoff
 import RsslVerif.Lemmas.Dec2BinMono
+import RsslVerif.Lemmas.LitFormatEmit
+import RsslVerif.Lemmas.LexerFiles
+import RsslVerif.Gen.LitFormatTables
 /-!
 # C10 — lexing is lossless and numeric literals are exact
 
@@ -454,5 +457,239 @@ set_option exponentiation.threshold 2000 in
 example : Dec2Bin.nearestRat Dec2Bin.binary64 3 (2 ^ 1075) = 2 := by decide +kernel   -- tie → even (2)
 example : Dec2Bin.nearest64 [9, 0, 0, 7, 1, 9, 9, 2, 5, 4, 7, 4, 0, 9, 9, 3] 0 = 0x4340000000000000 := by decide
 example : Dec2Bin.narrow32 0x3ff0000010000000 = 0x3f800000 := by decide      -- 1 + 2^-24: tie → even
+
+/-! ## Part 5 — "that value appears unchanged in the output": `format_literal` followed by the lexer -/
+
+open RsslVerif.Gen.LitFormatTables in
+/-- **literal_tables_as_modelled**: the code the printing model (`Model/LitFormat.lean`) is written against,
+re-extracted from the source on every run: every arm of `format_literal` (pattern, guard, format string) in order, the
+four `write_infinity_*` helpers, the `generate_literal` arms of the HLSL and of the Metal generator that map an
+`ir::Constant` to the `ast::Literal` that is printed (negative integers become `-` applied to the magnitude), and the
+typer's `parse_literal` (token payload → `ir::Constant`, 64-bit integer literals rejected).  Any change of a guard, a
+suffix, a format string or the arm order breaks this obligation before an input is found. -/
+theorem literal_tables_as_modelled :
+    formatLiteralArms = [
+      ("ast::Literal::Bool(true)", "", "output.push_str(\"true\")"),
+      ("ast::Literal::Bool(false)", "", "output.push_str(\"false\")"),
+      ("ast::Literal::IntUntyped(v)", "", "write!(output, \"{v}\").unwrap()"),
+      ("ast::Literal::IntUnsigned32(v)", "", "write!(output, \"{v}u\").unwrap()"),
+      ("ast::Literal::IntUnsigned64(v)", "", "write!(output, \"{v}ul\").unwrap()"),
+      ("ast::Literal::IntSigned64(v)", "", "write!(output, \"{v}l\").unwrap()"),
+      ("ast::Literal::FloatUntyped(v)", "*v == f64::INFINITY", "write_infinity_untyped(output, context)"),
+      ("ast::Literal::FloatUntyped(v)", "*v == f64::NEG_INFINITY", "output.push('-'); write_infinity_untyped(output, context)"),
+      ("ast::Literal::FloatUntyped(v)", "*v == 0.0 && v.is_sign_negative()", "output.push_str(\"-0.0\")"),
+      ("ast::Literal::FloatUntyped(v)", "*v == (*v as i64 as f64)", "write!(output, \"{}.0\", *v as i64).unwrap()"),
+      ("ast::Literal::FloatUntyped(v)", "*v > i64::MAX as f64 || *v < i64::MIN as f64", "write!(output, \"{v}.0\").unwrap()"),
+      ("ast::Literal::FloatUntyped(v)", "", "write!(output, \"{v}\").unwrap()"),
+      ("ast::Literal::Float16(v)", "*v == f32::INFINITY", "write_infinity_f16(output, context)"),
+      ("ast::Literal::Float16(v)", "*v == f32::NEG_INFINITY", "output.push('-'); write_infinity_f16(output, context)"),
+      ("ast::Literal::Float16(v)", "*v == f32::NEG_INFINITY", "write!(output, \"-INFINITY\").unwrap()"),
+      ("ast::Literal::Float16(v)", "*v == 0.0 && v.is_sign_negative()", "output.push_str(\"-0.0h\")"),
+      ("ast::Literal::Float16(v)", "*v == (*v as i64 as f32)", "write!(output, \"{}.0h\", *v as i64).unwrap()"),
+      ("ast::Literal::Float16(v)", "*v > i64::MAX as f32 || *v < i64::MIN as f32", "write!(output, \"{v}.0h\").unwrap()"),
+      ("ast::Literal::Float16(v)", "", "write!(output, \"{v}h\").unwrap()"),
+      ("ast::Literal::Float32(v)", "*v == f32::INFINITY", "write_infinity_f32(output, context)"),
+      ("ast::Literal::Float32(v)", "*v == f32::NEG_INFINITY", "output.push('-'); write_infinity_f32(output, context)"),
+      ("ast::Literal::Float32(v)", "*v == f32::MAX && context.target == Target::Msl", "output.write_str(\"FLT_MAX\").unwrap()"),
+      ("ast::Literal::Float32(v)", "*v == 0.0 && v.is_sign_negative()", "output.push_str(\"-0.0f\")"),
+      ("ast::Literal::Float32(v)", "*v == (*v as i64 as f32)", "write!(output, \"{}.0f\", *v as i64).unwrap()"),
+      ("ast::Literal::Float32(v)", "*v > i64::MAX as f32 || *v < i64::MIN as f32", "write!(output, \"{v}.0f\").unwrap()"),
+      ("ast::Literal::Float32(v)", "", "write!(output, \"{v}f\").unwrap()"),
+      ("ast::Literal::Float64(v)", "*v == f64::INFINITY", "write_infinity_f64(output, context)"),
+      ("ast::Literal::Float64(v)", "*v == f64::NEG_INFINITY", "output.push('-'); write_infinity_f64(output, context)"),
+      ("ast::Literal::Float64(v)", "*v == 0.0 && v.is_sign_negative()", "output.push_str(\"-0.0L\")"),
+      ("ast::Literal::Float64(v)", "*v == (*v as i64 as f64)", "write!(output, \"{}.0L\", *v as i64).unwrap()"),
+      ("ast::Literal::Float64(v)", "*v > i64::MAX as f64 || *v < i64::MIN as f64", "write!(output, \"{v}.0L\").unwrap()"),
+      ("ast::Literal::Float64(v)", "", "write!(output, \"{v}L\").unwrap()"),
+      ("ast::Literal::String(s)", "", "write!(output, \"\\\"{s}\\\"\").unwrap()")] ∧
+    writeInfinity = [
+      ("write_infinity_untyped", "\"INFINITY\"", "1.#INF"),
+      ("write_infinity_f16", "\"INFINITY\"", "1.#INFh"),
+      ("write_infinity_f32", "\"INFINITY\"", "1.#INFf"),
+      ("write_infinity_f64", "panic!(\"invalid msl\")", "1.#INFL")] ∧
+    generateLiteralHlsl = generateLiteralMsl ∧
+    generateLiteralHlsl.map (fun a => (a.1, a.2.1)) = [
+      ("ir::Constant::Bool(v)", ""),
+      ("ir::Constant::IntLiteral(v)", "v < 0 && -v <= u64::MAX as i128"),
+      ("ir::Constant::IntLiteral(v)", "v >= 0 && v <= u64::MAX as i128"),
+      ("ir::Constant::IntLiteral(_)", ""),
+      ("ir::Constant::Int32(v)", "v < 0"),
+      ("ir::Constant::Int32(v)", ""),
+      ("ir::Constant::UInt32(v)", ""),
+      ("ir::Constant::Int64(v)", ""),
+      ("ir::Constant::UInt64(v)", ""),
+      ("ir::Constant::FloatLiteral(v)", ""),
+      ("ir::Constant::Float16(v)", ""),
+      ("ir::Constant::Float32(v)", ""),
+      ("ir::Constant::Float64(v)", ""),
+      ("ir::Constant::String(_)", ""),
+      ("ir::Constant::Enum(id, ref c)", "")] ∧
+    (generateLiteralHlsl.drop 5).map (fun a => a.2.2) = [
+      "ast::Literal::IntUntyped(v as u64)", "ast::Literal::IntUnsigned32(u64::from(v))", "ast::Literal::IntSigned64(v)",
+      "ast::Literal::IntUnsigned64(v)", "ast::Literal::FloatUntyped(v)", "ast::Literal::Float16(v)",
+      "ast::Literal::Float32(v)", "ast::Literal::Float64(v)", "panic!(\"literal string not expected in output\")", "enum"] ∧
+    parseLiteralArms = [
+      ("ast::Literal::Bool(b)", "", "ir::Constant::Bool(*b)"),
+      ("ast::Literal::IntUntyped(i)", "", "ir::Constant::IntLiteral(*i as i128)"),
+      ("ast::Literal::IntUnsigned32(i)", "", "ir::Constant::UInt32(*i as u32)"),
+      ("ast::Literal::IntUnsigned64(_) | ast::Literal::IntSigned64(_)", "", "return Err(TyperError::Int64NotSupported(SourceLocation::UNKNOWN))"),
+      ("ast::Literal::FloatUntyped(f)", "", "ir::Constant::FloatLiteral(*f)"),
+      ("ast::Literal::Float16(f)", "", "ir::Constant::Float16(*f)"),
+      ("ast::Literal::Float32(f)", "", "ir::Constant::Float32(*f)"),
+      ("ast::Literal::Float64(f)", "", "ir::Constant::Float64(*f)"),
+      ("ast::Literal::String(_)", "", "return Err(TyperError::StringNotSupported(SourceLocation::UNKNOWN))")] := by
+  decide +kernel
+
+/-- **emit_int_exact**: an integer literal whose payload fits its kind (`< 2^64`; `< 2^32` for `u`; `< 2^63` for `l`) is
+printed by `format_literal` as `Display` of the payload followed by the kind's suffix, and that text — followed by the end
+of the text or by any byte that is not an identifier character and not `.` — is read by `token_intermediate` as exactly
+one token: the integer literal of the same kind with the same value.  (A negative value is printed as `-` applied to the
+magnitude by `generate_literal`, see `literal_tables_as_modelled`; the `-` is a token of its own.) -/
+theorem emit_int_exact (k : Model.LitFormat.Kind) (ity : Option IntType) (hk : k.intType? = some ity) (v : Nat) (tok : Token)
+    (hfit : mkIntToken? v ity = some tok) (hv : v < 2 ^ 64) (hs : k = .s64 → v < 2 ^ 63)
+    (rest : Bytes) (hb : IntBoundary rest) (inc : Bool) :
+    Model.LitFormat.fmtLiteral k false v [] = .ok (Model.LitFormat.fmtInt k v) ∧
+    tokenIntermediate (Model.LitFormat.fmtInt k v ++ rest) inc = .ok (rest, tok) ∧ tok.intValue? = some (v : Int) := by
+  refine ⟨?_, Model.LitFormat.fmtInt_lexes k ity hk v tok hfit hv hs rest hb inc, mkIntToken?_value hfit⟩
+  cases k <;> simp [Model.LitFormat.Kind.intType?] at hk <;> rfl
+
+/-- **emit_value_exact**: for every float kind (untyped, `h`, `f`, `L`), target, and finite non-negative stored value
+`mag` (a binary64 pattern for the untyped and the `L` kind, a binary32 pattern for `f` and — as the code keeps half
+literals in an `f32` — for `h`), the text `format_literal` prints, followed by the end of the text or any byte that is not
+an identifier character and not `#`, is read by `token_intermediate` as exactly one token: the float literal of the same
+kind carrying the same bits.  The only assumption is about Rust's `Display` (`{v}`): it writes plain decimal digits
+`L[.R]`, with a `.` exactly when the value is not whole, whose nearest double — narrowed once for the single-precision
+kinds, i.e. read the way the lexer reads (`lex_float_nearest`) — is the value.  The correspondence run checks this
+assumption bit for bit on every generated value (and finds the one single for which it fails: `0x15ae43fd`, see
+`emit_f32_double_rounding_witness`).  Values printed through `v as i64` need no assumption: `emit_whole_value_exact`. -/
+theorem emit_value_exact (k : Model.LitFormat.Kind) (ty : Option FloatType) (hk : k.floatType? = some ty) (msl : Bool)
+    (mag : Nat) (hfin : mag < k.fmt.infBits) (hmax : ¬ (k = .f32 ∧ msl = true ∧ mag = k.fmt.infBits - 1))
+    (disp : Bytes) (L R : List Nat) (hLne : L ≠ []) (hdig : ∀ d ∈ L ++ R, d < 10)
+    (htext : disp = L.map digitByte ++ (if R = [] then [] else 46 :: R.map digitByte))
+    (hdot : R = [] ↔ (Model.LitFormat.wholeValue? k.fmt mag).isSome)
+    (hrt : narrowOnce ty (Dec2Bin.nearest64 (L ++ R) (0 - (R.length : Nat))) = mag)
+    (text : Bytes) (h : Model.LitFormat.fmtFloat k msl mag disp = .ok text) (rest : Bytes) (hb : Boundary rest) (inc : Bool) :
+    tokenIntermediate (text ++ rest) inc = .ok (rest, Model.LitFormat.floatTok k mag) ∧
+    (Model.LitFormat.floatTok k mag).floatBits? = some mag :=
+  ⟨Model.LitFormat.fmtFloat_lexes k ty hk msl mag hfin hmax disp L R hLne hdig htext hdot hrt text h rest hb inc,
+   by cases k <;> rfl⟩
+
+/-- **emit_whole_value_exact** (no assumption): a finite non-negative float whose value is a whole number up to `2^63` —
+`0.0`, `1.0f`, `255.0h`, `16777216.0L`, … — is printed as `<integer>.0<suffix>` and read back as the same kind with the
+same bits; `2^63` itself is printed as `9223372036854775807.0` (`as i64` saturates) and still reads back as `2^63`. -/
+theorem emit_whole_value_exact (k : Model.LitFormat.Kind) (ty : Option FloatType) (hk : k.floatType? = some ty) (msl : Bool)
+    (mag n : Nat) (hfin : mag < k.fmt.infBits) (hmax : ¬ (k = .f32 ∧ msl = true ∧ mag = k.fmt.infBits - 1))
+    (hw : Model.LitFormat.wholeValue? k.fmt mag = some n) (hn : n ≤ 2 ^ 63) (disp : Bytes)
+    (rest : Bytes) (hb : Boundary rest) (inc : Bool) :
+    ∃ text, Model.LitFormat.fmtFloat k msl mag disp = .ok text ∧
+      tokenIntermediate (text ++ rest) inc = .ok (rest, Model.LitFormat.floatTok k mag) :=
+  Model.LitFormat.fmtFloat_whole_lexes k ty hk msl mag n hfin hmax hw hn disp rest hb inc
+
+/-- **emit_infinity_exact**: `+∞` of every float kind is printed for HLSL as `1.#INF<suffix>` and read back as `+∞` of
+the same kind.  (For Metal it is printed as the name `INFINITY`, and the largest single as `FLT_MAX`: not literals; the
+run maps the names to their values.) -/
+theorem emit_infinity_exact (k : Model.LitFormat.Kind) (ty : Option FloatType) (hk : k.floatType? = some ty) (disp : Bytes)
+    (rest : Bytes) (hb : Boundary rest) (inc : Bool) :
+    ∃ text, Model.LitFormat.fmtFloat k false k.fmt.infBits disp = .ok text ∧
+      tokenIntermediate (text ++ rest) inc = .ok (rest, Model.LitFormat.floatTok k k.fmt.infBits) :=
+  Model.LitFormat.fmtFloat_inf_lexes k ty hk disp rest hb inc
+
+/-- non-vacuity of `emit_value_exact`: the single `0.1f` (`0x3dcccccd`, `Display` = `0.1`): the hypotheses hold and the
+printed text `0.1f;` lexes to `Float32 0x3dcccccd` followed by `;` -/
+example : Dec2Bin.narrow32 (Dec2Bin.nearest64 ([0] ++ [1]) (0 - 1)) = 0x3dcccccd ∧
+    Model.LitFormat.wholeValue? Dec2Bin.binary32 0x3dcccccd = none ∧
+    (Model.LitFormat.fmtFloat .f32 false 0x3dcccccd [48, 46, 49]).toOption = some [48, 46, 49, 102] ∧
+    (tokenIntermediate [48, 46, 49, 102, 59] false).toOption = some ([59], .litFloat32 0x3dcccccd) := by decide
+/-- non-vacuity of the `<Display>.0` arm of `emit_value_exact`: `1e30f` (`0x7149f2ca`, `Display` = 1 followed by 30 zeros) -/
+example : Dec2Bin.narrow32 (Dec2Bin.nearest64 (1 :: List.replicate 30 0) 0) = 0x7149f2ca ∧
+    (Model.LitFormat.wholeValue? Dec2Bin.binary32 0x7149f2ca).isSome = true ∧
+    (Model.LitFormat.fmtFloat .f32 false 0x7149f2ca (49 :: List.replicate 30 48)).toOption =
+      some (49 :: List.replicate 30 48 ++ [46, 48, 102]) ∧
+    (tokenIntermediate (49 :: List.replicate 30 48 ++ [46, 48, 102, 41]) false).toOption =
+      some ([41], .litFloat32 0x7149f2ca) := by decide
+/-- non-vacuity of `emit_whole_value_exact`: `255.0h` and the saturating `2^63` as a double -/
+example : (Model.LitFormat.fmtFloat .f16 true 0x437f0000 []).toOption = some [50, 53, 53, 46, 48, 104] ∧
+    (tokenIntermediate [50, 53, 53, 46, 48, 104] false).toOption = some ([], .litFloat16 0x437f0000) := by decide
+/-- non-vacuity of `emit_int_exact`: `4294967295u)` -/
+example : Model.LitFormat.fmtInt .u32 4294967295 = [52, 50, 57, 52, 57, 54, 55, 50, 57, 53, 117] ∧
+    (tokenIntermediate ([52, 50, 57, 52, 57, 54, 55, 50, 57, 53, 117] ++ [41]) false).toOption = some ([41], .litIntU32 4294967295) := by
+  decide
+
+/-- **emit_negative_exact**: a finite negative float (sign bit set; Rust's `Display` writes `-` and the digits of the
+magnitude) is printed as `-` followed by exactly the text of its magnitude, and `token_intermediate` reads that `-` as
+the token `Minus` and leaves the magnitude's text — to which `emit_value_exact` applies — untouched.  (`-2^63` is printed
+exactly, `-9223372036854775808.0`, while `+2^63` saturates: excluded here, covered by the run.)  Negative integers are
+built as `Minus` applied to the magnitude by `generate_literal` itself (`literal_tables_as_modelled`). -/
+theorem emit_negative_exact (k : Model.LitFormat.Kind) (ty : Option FloatType) (hk : k.floatType? = some ty) (msl : Bool)
+    (mag : Nat) (hfin : mag < k.fmt.infBits) (hmax : ¬ (k = .f32 ∧ msl = true ∧ mag = k.fmt.infBits - 1))
+    (h63 : Model.LitFormat.wholeValue? k.fmt mag ≠ some (2 ^ 63)) (disp t : Bytes)
+    (ht : Model.LitFormat.fmtFloat k msl mag disp = .ok t) :
+    Model.LitFormat.fmtFloat k msl (Model.LitFormat.signBit k.fmt + mag) (45 :: disp) = .ok (45 :: t) ∧
+    ∀ (d : UInt8) (r rest : Bytes) (inc : Bool), t = d :: r → 48 ≤ d.toNat ∧ d.toNat ≤ 57 →
+      tokenIntermediate (45 :: t ++ rest) inc = .ok (t ++ rest, .simple .Minus) := by
+  refine ⟨?_, ?_⟩
+  · rw [Model.LitFormat.fmtFloat_negative k ty hk msl mag hfin hmax h63 disp, ht]
+  · intro d r rest inc htd hd
+    subst htd
+    exact minus_before_digit d (r ++ rest) hd inc
+
+/-- non-vacuity: `-0.1f` (`0xbdcccccd`): printed `-0.1f`, read as `Minus`, `Float32 0x3dcccccd` -/
+example : (Model.LitFormat.fmtFloat .f32 false 0xbdcccccd [45, 48, 46, 49]).toOption = some [45, 48, 46, 49, 102] ∧
+    (tokenIntermediate [45, 48, 46, 49, 102] false).toOption = some ([48, 46, 49, 102], .simple .Minus) := by decide
+
+/-- **emit_f32_double_rounding_witness** (negation witness for the `f`/`h` kinds without the `Display` hypothesis): the
+single `0x15ae43fd` has the shortest round-trip decimal `7.038531e-26` — as a single, read directly, it is the nearest —
+but the lexer reads a literal through the nearest double and narrows once, and the nearest double of that decimal is the
+exact midpoint of `0x15ae43fd` and `0x15ae43fe`, which ties to the even neighbour: the printed text
+`0.00000000000000000000000007038531f` lexes to `0x15ae43fe`.  (Found by the run; the only such single.) -/
+theorem emit_f32_double_rounding_witness :
+    Dec2Bin.nearest32 [7, 0, 3, 8, 5, 3, 1] (-32) = 0x15ae43fd ∧
+    Dec2Bin.narrow32 (Dec2Bin.nearest64 [7, 0, 3, 8, 5, 3, 1] (-32)) = 0x15ae43fe ∧
+    (match tokenIntermediate ([48, 46] ++ List.replicate 25 48 ++ [55, 48, 51, 56, 53, 51, 49, 102]) false with
+     | .ok (_, tok) => tok.floatBits? | .error _ => none) = some 0x15ae43fe := by decide
+
+/-! ## Part 6 — multi-file inputs: every token span and every lexer diagnostic lies inside its own file -/
+
+open RsslVerif.Model.SourceMap in
+/-- **multi_file_spans_in_file**: let the `SourceManager` hold any files `pre`, then `f`, then any files `post` (entry
+file, included files, `<define>` files, `<scratch space>` files of `##` results — a file is a file).  Lexing `f` with
+`TokenStream::new(contents, base_location)` gives tokens whose start and end locations `base + start`, `base + stop`
+all decode (`get_file_offset_from_source_location`, `get_file_location`) to file `f` itself, at offsets
+`start ≤ stop ≤ |f|` — never to a neighbouring file, whatever the neighbours contain — and to `f`'s name with the line
+and column counted inside `f` alone. -/
+theorem multi_file_spans_in_file (pre post : SourceManager) (f : SourceFile) (trailing debug : Bool) (ts : List PTok)
+    (h : readToEnd f.contents trailing debug = .ok ts) :
+    ∀ t ∈ ts, t.start ≤ t.stop ∧ t.stop ≤ f.contents.length ∧
+      getFileOffset (pre ++ f :: post) (totalSlots pre + t.start) = some (pre.length, t.start) ∧
+      getFileOffset (pre ++ f :: post) (totalSlots pre + t.stop) = some (pre.length, t.stop) ∧
+      getFileLocation (pre ++ f :: post) (totalSlots pre + t.start) =
+        .known f.name (lineCol f.contents t.start).line (lineCol f.contents t.start).col := by
+  intro t ht
+  obtain ⟨_, hb⟩ := chain_bounds (spans_tile h).chain
+  obtain ⟨_, h2, h3⟩ := hb t ht
+  have ds := decode_in_file pre post f t.start (by omega)
+  have de := decode_in_file pre post f t.stop h3
+  exact ⟨h2, h3, ds.1, de.1, ds.2⟩
+
+open RsslVerif.Model.SourceMap in
+/-- **multi_file_error_in_file**: a lexer diagnostic for file `f` of a multi-file manager is positioned inside `f`: its
+location `base + offset` decodes to `f` at `offset ≤ |f|` and is printed with `f`'s name. -/
+theorem multi_file_error_in_file (pre post : SourceManager) (f : SourceFile) (trailing debug : Bool) (k : Reason)
+    (off : Nat) (h : readToEnd f.contents trailing debug = .error (.lexer k off)) :
+    off ≤ f.contents.length ∧
+      getFileOffset (pre ++ f :: post) (totalSlots pre + off) = some (pre.length, off) ∧
+      getFileLocation (pre ++ f :: post) (totalSlots pre + off) =
+        .known f.name (lineCol f.contents off).line (lineCol f.contents off).col := by
+  have hle := error_pos_in_range h
+  have d := decode_in_file pre post f off hle
+  exact ⟨hle, d.1, d.2⟩
+
+/-- non-vacuity: two files; the second one (`a<b`) starts at raw location 3; its token `<` at offset 1 is location 4 and
+decodes to file 1, offset 1, line 1, column 2 -/
+example : (readToEnd [97, 60, 98] true true).toOption.map (·.map fun t => (t.start, t.stop)) =
+      some [(0, 1), (1, 2), (2, 3), (3, 3)] ∧
+    Model.SourceMap.getFileOffset [⟨"m", [120, 10]⟩, ⟨"a.h", [97, 60, 98]⟩] (3 + 1) = some (1, 1) ∧
+    Model.SourceMap.getFileLocation [⟨"m", [120, 10]⟩, ⟨"a.h", [97, 60, 98]⟩] (3 + 1) = .known "a.h" 1 2 := by
+  decide +kernel
 
 end RsslVerif.Thm.C10
